@@ -295,7 +295,8 @@ def one_upload(ctx, impl, name, blocks, ending, variant, sig=None, src=None, col
                 ops=rec.ops)
     ctx.hist("upload_outcome", out.split(":")[0] if out.startswith("raise") or out.startswith("fail") else out)
     if outside1 != outside0:
-        ctx.fail(sig if sig and "symlink" in sig else "oracle/upload-escapes-directory",
+        ctx.fail(sig or ("oracle/upload-follows-preexisting-partial-symlink" if "tmplink" in variant else
+                         "oracle/upload-escapes-directory"),
                  "upload of name %r (initial state %s) changed something outside the target directory: before %r after %r; "
                  "operations %r" % (name, variant, outside0, outside1, rec.ops), replay=what)
     final = os.path.join(target, comp)
@@ -566,8 +567,6 @@ def gatherer_check(ctx, impl, names, jobs):
         one_gather(ctx, impl, n, collect=cases)
         ctx.case(["gatherer", n], nontrivial=not plain(n))
     # names on which the operating system refuses the file are outside the model (direct oracle covered them)
-    cs_ = [c for c in cases if not (os_refuses(c["name"]) and c["out"] not in ("raise:InsecurePath", "raise:ValueError:guard"))
-           or c["out"] == "raise:InsecurePath"]
     cs_ = [c for c in cases if not os_refuses(c["name"])]
     exp = []
     for c in cs_:
